@@ -636,3 +636,8 @@ Proof.
   setoid_replace (inject_Z B)%Q with (inject_Z B / inject_Z S * inject_Z S)%Q by (field; exact NQ).
   exact H.
 Qed.
+
+(* ------------------------------------------------------------------ -proto + reopen *)
+Lemma proto_roundtrip_lemma p i :
+  print_proto (report_new p i) = p /\ snd (report_new (print_proto (report_new p i)) i) = snd (report_new p i).
+Proof. split; reflexivity. Qed.
